@@ -1013,6 +1013,68 @@ pub mod vx_export {
         Ok(C12Outcome { p1, p2, final_epoch: fin.epoch(), audits_ok, a_ok: ok[0], b_ok: ok[1] })
     }
 
+    // ---- C05 (BOUNDED check of the two ASSUMED tree invariants of unit azks_proofs): after every publish of a random history the stored
+    // tree, as read at the latest epoch, is `shaped` (canonical labels; a child extends its parent by its direction bit; leaves are the
+    // 256-bit nodes; only the root may lack a child; a record is stored under its own label) and `consistent` (every non-leaf node stores
+    // the parent hash of its two children as read, leaf values hashed with their epoch).
+    pub async fn c05_tree_invariants<TC: Configuration>(seed: u64, steps: usize, nlabels: u64, parallel: bool) -> Result<Vec<String>, AkdError> {
+        let db = StorageManager::new_no_cache(AsyncInMemoryDatabase::new());
+        let dir = Directory::<TC, _, _>::new(db.clone(), HardCodedAkdVRF {}, if parallel { AzksParallelismConfig::default() } else { AzksParallelismConfig::disabled() }).await?;
+        let mut rng = seed.wrapping_mul(0x9E3779B97F4A7C15) | 1;
+        let mut next = move || { rng ^= rng << 13; rng ^= rng >> 7; rng ^= rng << 17; rng };
+        let bit = |l: &NodeLabel, i: u32| (l.label_val[(i / 8) as usize] >> (7 - (i % 8))) & 1;
+        let mut bad = vec![];
+        for step in 0..steps {
+            let n = 1 + (next() % 5) as usize;
+            let mut batch: Vec<(AkdLabel, AkdValue)> = vec![];
+            for _ in 0..n {
+                let l = next() % nlabels;
+                let name = AkdLabel(format!("label-{l}").into_bytes());
+                if batch.iter().any(|b| b.0 == name) { continue; }
+                batch.push((name, AkdValue(format!("v{}-{}", step, next() % 3).into_bytes())));
+            }
+            dir.publish(batch).await?;
+            let epoch = dir.get_epoch_hash().await?.epoch();
+            // walk the whole stored tree
+            let mut stack = vec![NodeLabel::root()];
+            let mut seen = 0usize;
+            while let Some(l) = stack.pop() {
+                let node = match TreeNode::get_from_storage(&db, &NodeKey(l), epoch).await { Ok(n) => n, Err(e) => { bad.push(format!("step {step}: a named child {l:?} cannot be read at epoch {epoch}: {e}")); continue; } };
+                seen += 1;
+                if node.label != l { bad.push(format!("step {step}: the record stored under {l:?} carries label {:?}", node.label)); }
+                for i in l.label_len..256 { if l.label_len < 256 && bit(&l, i) != 0 { bad.push(format!("step {step}: label {l:?} is not canonical")); break; } }
+                let is_leaf = matches!(node.node_type, crate::tree_node::TreeNodeType::Leaf);
+                if is_leaf != (l.label_len == 256) { bad.push(format!("step {step}: node {l:?}: leaf flag {is_leaf} but length {}", l.label_len)); }
+                if is_leaf { continue; }
+                if l.label_len != 0 && (node.left_child.is_none() || node.right_child.is_none()) { bad.push(format!("step {step}: interior node {l:?} other than the root lacks a child")); }
+                let mut kids: Vec<Option<TreeNode>> = vec![];
+                for (d, c) in [(0u8, node.left_child), (1u8, node.right_child)] {
+                    match c {
+                        Some(cl) => {
+                            if !(cl.label_len > l.label_len && (0..l.label_len).all(|i| bit(&cl, i) == bit(&l, i)) && bit(&cl, l.label_len) == d) {
+                                bad.push(format!("step {step}: child {cl:?} of {l:?} in direction {d} does not extend it by that bit"));
+                            }
+                            kids.push(TreeNode::get_from_storage(&db, &NodeKey(cl), epoch).await.ok());
+                            stack.push(cl);
+                        }
+                        None => kids.push(None),
+                    }
+                }
+                let lv = node_to_azks_value::<TC>(&kids[0], NodeHashingMode::WithLeafEpoch);
+                let rv = node_to_azks_value::<TC>(&kids[1], NodeHashingMode::WithLeafEpoch);
+                let ll = kids[0].as_ref().map(|k| k.label).unwrap_or_else(TC::empty_label);
+                let rl = kids[1].as_ref().map(|k| k.label).unwrap_or_else(TC::empty_label);
+                if node.hash != TC::compute_parent_hash_from_children(&lv, &ll.value::<TC>(), &rv, &rl.value::<TC>()) {
+                    bad.push(format!("step {step}: node {l:?} does not store the parent hash of its children as read at epoch {epoch}"));
+                }
+                if bad.len() > 3 { break; }
+            }
+            if seen < 1 { bad.push(format!("step {step}: no root")); }
+            if bad.len() > 3 { break; }
+        }
+        Ok(bad)
+    }
+
     // ---- C01 (BOUNDED differential check): the directory's root hash against an INDEPENDENT computation of the hash of the canonical
     // compressed binary trie over the leaves the statement lists (written from the statement and the crate documentation, sharing only
     // the configuration's hash primitives and the VRF with the code under test)
